@@ -310,6 +310,16 @@ class Exec:
         if a[0] == 'undef' or b[0] == 'undef': return UNDEF
         x, y = a[1], b[1]
         if isinstance(x, float) and isinstance(y, float):
+            if s.mode == 'real' and x == x and y == y and abs(x) != float('inf') and abs(y) != float('inf') and not (op in ('fdiv', 'frem') and y == 0):
+                # exact-real reading also for constant folding: keep the float only when the IEEE result is exact
+                from fractions import Fraction
+                fx, fy = Fraction(x), Fraction(y)
+                ex_ = fx + fy if op == 'fadd' else fx - fy if op == 'fsub' else fx * fy if op == 'fmul' else fx / fy if op == 'fdiv' else None
+                if ex_ is not None:
+                    try: fl = float(ex_)
+                    except OverflowError: fl = None
+                    if fl is not None and Fraction(fl) == ex_: return ('f', fl)
+                    return ('f', z3.RealVal('%d/%d' % (ex_.numerator, ex_.denominator)))
             if op == 'fadd': return ('f', x + y)
             if op == 'fsub': return ('f', x - y)
             if op == 'fmul': return ('f', x * y)
